@@ -443,7 +443,7 @@ func (g *Gen) flipCase(lex string, inHeader bool, idx int) string {
 			flippable = true
 		}
 	case inHeader:
-		flippable = idx == 0 || up == "W" || up == "[W]" || up == "H->E" || up == "H<-E" || up == "H<->E"
+		flippable = sfRe.MatchString(lex) || up == "W" || up == "[W]" || up == "H->E" || up == "H<-E" || up == "H<->E"
 	}
 	if !flippable {
 		return lex
@@ -457,6 +457,7 @@ func (g *Gen) flipCase(lex string, inHeader bool, idx int) string {
 	return lex
 }
 
+var sfRe = regexp.MustCompile(`^[Ss][0-9]+[Ff][0-9]+$`)
 var sizeLexRe = regexp.MustCompile(`^\[ ?([0-9]*) ?(\.\.)? ?([0-9]*) ?\]$`)
 
 // respace re-renders a size declaration with other white space between its parts (still one token)
